@@ -496,5 +496,83 @@ def rule_count(ctx):
     return res.finish(5)
 
 
+FULL_SORTS = {"sort", "sort_by", "sort_unstable", "sort_unstable_by", "sort_by_key", "sort_unstable_by_key", "sort_by_cached_key"}
+PARTIAL_ORDERS = {"select_nth_unstable", "select_nth_unstable_by", "select_nth_unstable_by_key", "partition_point", "partition"}
+
+
+def rule_median(ctx):
+    """The median is the middle element (or the mean of the two middle elements) of the *sorted* errors.  A selection
+    (select_nth_unstable) puts one position in place: reading another position afterwards reads an arbitrary element of
+    that side of the partition."""
+    res = RuleResult("R-C05-median", "median_absolute_error reads the middle position(s) of a fully sorted sequence")
+    F = ctx.facts()
+    fns = [f for f in F.all_fns() if f["d"]["krate"] == "linfa" and f["d"]["name"] == "median_absolute_error" and (f["d"].get("trait") or "").endswith("SingleTargetRegression")]
+    if not fns:
+        res.missing_anchor("SingleTargetRegression::median_absolute_error")
+    for fn in fns:
+        c = fn["crate"]
+        r = Render(c)
+        key = fn_key(fn)
+        reads = [y for y in walk(fn["body"]) if y.get("k") == "Index" and peel_refs(y["e"]).get("k") == "Path" and "local" in peel_refs(y["e"])]
+        res.instance("%s : %d positional reads" % (key, len(reads)))
+        if not reads:
+            res.undecided("%s : reads" % key, "no positional read of the error sequence (fail closed)", fn_loc(fn))
+            continue
+        seq = peel_refs(reads[0]["e"])["local"]
+        orders = [y for y in walk(fn["body"]) if y.get("k") == "MethodCall" and peel_refs(y["recv"]).get("local") == seq and y["name"] in FULL_SORTS | PARTIAL_ORDERS]
+        first_read = min(y.get("ln") or 0 for y in reads)
+        full = [y for y in orders if y["name"] in FULL_SORTS and (y.get("ln") or 0) <= first_read]
+        part = [y for y in orders if y["name"] in PARTIAL_ORDERS]
+        if full:
+            res.ok()
+        elif part:
+            sel = r.e(part[0]["args"][0]).replace(" ", "") if part[0]["args"] else "?"
+            other = [y for y in reads if r.e(y["i"]).replace(" ", "") != sel]
+            if other:
+                res.violate("%s : reads-unsorted-position" % key, "the errors are only partitioned around position `%s` (%s), but position `%s` is read as well: that is an arbitrary element of its side, not the neighbouring order statistic" % (sel, part[0]["name"], r.e(other[0]["i"])[:20]), fn_loc(fn, other[0].get("ln")))
+            else:
+                res.ok()
+        else:
+            res.violate("%s : median-of-unsorted" % key, "positions of the error sequence are read without sorting it first", fn_loc(fn, reads[0].get("ln")))
+    return res.finish(1)
+
+
+def rule_twice(ctx):
+    """`(x1 - x0) * (y0 + y1) / 2`: a sum or difference in a metric combines two *different* quantities.  The same operand on
+    both sides (`y1 + y1`, `x - x`) is a slip of the pen that turns a trapezoid into a rectangle or a difference into zero."""
+    res = RuleResult("R-C05-twice", "no sum or difference in the metric code has the same non-constant operand on both sides")
+    F = ctx.facts()
+    n = 0
+    for fn in F.all_fns():
+        d = fn["d"]
+        if d["krate"] != "linfa" or "tests" in d["path"] or fn.get("exp") or not ("metrics_" in fn_file(fn)):
+            continue
+        c = fn["crate"]
+        r = Render(c)
+        sites = [y for y in walk(fn["body"]) if y.get("k") == "Binary" and y["op"] in ("+", "-")]
+        if not sites:
+            continue
+        n += 1
+        key = fn_key(fn)
+        res.instance("%s : %d sums / differences" % (key, len(sites)))
+        bad = None
+        for y in sites:
+            a, b = peel_refs(y["l"]), peel_refs(y["r"])
+            if a.get("k") in ("Lit",) or (a.get("k") == "Call" and not a.get("args")):
+                continue
+            if r.e(a) == r.e(b) and any(z.get("k") == "Path" and "local" in z for z in walk(a)):
+                bad = y
+                break
+        if bad is None:
+            res.ok()
+        else:
+            res.violate("%s : operand-used-twice" % key, "`%s` has the same operand on both sides" % r.e(bad)[:60], fn_loc(fn, bad.get("ln")))
+    if n < 8:
+        res.missing_anchor("metric functions with sums / differences (found %d)" % n)
+    return res.finish(8)
+
+
 def rules(tier):
-    return [rule_delegate, rule_degree, rule_orient, rule_count]
+    from . import c02
+    # the class list of a confusion matrix over a dataset is the key set of its label-count cache: shared with C02
+    return [rule_delegate, rule_degree, rule_orient, rule_count, rule_median, rule_twice, c02.rule_counted]
